@@ -35,9 +35,10 @@ const (
 	c22EntryGRPC
 	c22EntryGRPCLegacy // single tenant in the deprecated Tenant/Timeseries fields
 	c22EntryHTTP
+	c22EntryOTLP // receiveOTLPHTTP; data[0].series must be the converted series of otlpBody (vfOTLP)
 )
 
-var c22EntryNames = []string{"forward", "grpc", "grpc-legacy", "http"}
+var c22EntryNames = []string{"forward", "grpc", "grpc-legacy", "http", "otlp"}
 
 // Known finding (same root cause as C23's F8, different consequence): fanoutForward builds its
 // replicationErrors with threshold = write quorum instead of the failure threshold. For replication
@@ -88,6 +89,8 @@ type c22Scenario struct {
 	data   []vfTuple
 	matrix map[string]vfSpec // "addr#replica" -> outcome
 	down   map[string]bool   // node address -> refuses connections
+
+	otlpBody []byte
 }
 
 func c22Key(addr string, replica uint64) string { return addr + "#" + strconv.FormatUint(replica, 10) }
@@ -172,7 +175,7 @@ func c22Canonical(ds []*vfDest) {
 }
 
 // c22Exec runs the scenario once; perm permutes the canonical list of parked destinations.
-func c22Exec(tb testing.TB, sc *c22Scenario, perm func(n int) []int) c22Obs {
+func c22Exec(tb testing.TB, sc *c22Scenario, perm func(ds []*vfDest) []int) c22Obs {
 	hz := vfNewHarness(tb, sc.cfg)
 	defer hz.close()
 	hz.peers.spec = func(ep Endpoint, replica uint64) vfSpec { return sc.matrix[c22Key(ep.Address, replica)] }
@@ -201,6 +204,8 @@ func c22Exec(tb testing.TB, sc *c22Scenario, perm func(n int) []int) c22Obs {
 	case c22EntryGRPCLegacy:
 		req := &storepb.WriteRequest{Replica: int64(sc.rep), Tenant: sc.data[0].tenant, Timeseries: append([]prompb.TimeSeries(nil), sc.data[0].series...)}
 		start = func() vfResult { _, err := hz.h.RemoteWrite(ctx, req); return vfResult{err: err} }
+	case c22EntryOTLP:
+		start = func() vfResult { return hz.httpOTLP(ctx, sc.data[0].tenant, sc.rep, sc.otlpBody) }
 	default:
 		body := vfV1Body(sc.data[0].series)
 		start = func() vfResult { return hz.httpV1(ctx, sc.data[0].tenant, sc.rep, body) }
@@ -214,12 +219,15 @@ func c22Exec(tb testing.TB, sc *c22Scenario, perm func(n int) []int) c22Obs {
 		tb.Fatalf("harness: %d destinations dispatched, %d expected (%s)", len(ds), parkable, sc.render())
 	}
 	c22Canonical(ds)
-	p := perm(len(ds))
+	p := perm(ds)
+	if len(p) != len(ds) {
+		tb.Fatalf("harness: permutation of %d for %d destinations", len(p), len(ds))
+	}
 	order := make([]*vfDest, len(ds))
 	for i, j := range p {
 		order[i] = ds[j]
 	}
-	obs := c22Obs{http: sc.entry == c22EntryHTTP, dests: ds, order: order, doneAfter: -1, refused: refused}
+	obs := c22Obs{http: sc.entry == c22EntryHTTP || sc.entry == c22EntryOTLP, dests: ds, order: order, doneAfter: -1, refused: refused}
 	if len(order) > 0 && refused > 0 {
 		// refused connections answer immediately; let the handler look at them first
 		for i := 0; i < 50 && obs.doneAfter < 0; i++ {
@@ -442,8 +450,11 @@ func c22Gen(rt *rapid.T) *c22Scenario {
 	return sc
 }
 
-func c22DrawPerm(rt *rapid.T, label string) func(n int) []int {
-	return func(n int) []int {
+func c22Identity(ds []*vfDest) []int { return vfPermutations(len(ds))[0] }
+
+func c22DrawPerm(rt *rapid.T, label string) func(ds []*vfDest) []int {
+	return func(ds []*vfDest) []int {
+		n := len(ds)
 		idx := make([]int, n)
 		for i := range idx {
 			idx[i] = i
@@ -463,7 +474,7 @@ func TestVerifC22(t *testing.T) {
 	known := kit.KnownFindings("C22")
 	{
 		sc := c22RegressionGRPCAck()
-		obs := c22Exec(t, sc, func(n int) []int { return vfPermutations(n)[0] })
+		obs := c22Exec(t, sc, c22Identity)
 		if msg := c22Check(sc, obs); msg != "" {
 			if known[sigC22GRPCAck] {
 				rec.Known(sigC22GRPCAck, "RF=4 one series [unavailable,unavailable,ok,ok] through gRPC RemoteWrite: "+msg)
@@ -557,7 +568,7 @@ func TestVerifC22_Exhaustive(t *testing.T) {
 			series := c22FindSeries(t, cfg, "t0", sp.series, true)
 			base := &c22Scenario{cfg: cfg, entry: c22EntryForward, rep: sp.rep, data: []vfTuple{{tenant: "t0", series: series}}, matrix: map[string]vfSpec{}, down: map[string]bool{}}
 			// destinations of this request (one probe execution with all-success outcomes)
-			probe := c22Exec(t, base, func(n int) []int { return vfPermutations(n)[0] })
+			probe := c22Exec(t, base, c22Identity)
 			var keys []string
 			for _, d := range probe.dests {
 				keys = append(keys, c22Key(d.er.endpoint.Address, d.er.replica))
@@ -581,7 +592,7 @@ func TestVerifC22_Exhaustive(t *testing.T) {
 				var first c22Obs
 				for pi, p := range perms {
 					p := p
-					obs := c22Exec(t, sc, func(int) []int { return p })
+					obs := c22Exec(t, sc, func([]*vfDest) []int { return p })
 					if msg := c22Check(sc, obs); msg != "" {
 						rec.Violation(t, "C22 violated: %s\nscenario: %s\nrelease order: %s\nresult: err=%v", msg, sc.render(), obs.orderString(), obs.res.err)
 					}
